@@ -13,9 +13,9 @@ NOTE_COMMON = ("Trusted: Lean 4.33 kernel; axioms limited to propext / Classical
 CLAIMS = {
     "C01": ("Proved end to end at the level of collection passes, for every reachable world of the machine (any programs, callbacks, nested collections, injected panics and their unwinding): the global invariants Counts (count >= existing pointers), Inv (marks = lists, buffered => tracing counter 0, freed => no count/mark) and Flags hold in every reachable world and discharge the hypotheses of graph theorem T1, so whatever a pass selects is referenced by no table entry, stashed clone, frame temporary, untraced field or dead value's field (reachable_pass_candidates_unreferenced), nothing reachable from the program through any chain of traced/untraced fields is ever selected (reachable_object_not_candidate), and no existing pointer ever targets a freed box (no_dangling_pointer). Not yet proved: that the *value* behind every program-reachable pointer is intact after caught panics (isolation of a half-destroyed garbage set, DESIGN.md §10); decided per run by the canary/reachability oracles and the correspondence.",
             "Lean proof (global machine invariants by induction over all micro-steps + T1 graph theorem, unbounded) + model/impl correspondence with UAF/canary/allocator oracles"),
-    "C02": ("Graph theorem T2 (per-pass completeness + queues drain with fuel = #objects) proved for all heaps. History-level coverage invariant I10 not yet proved; checked per run by the model-independent leak oracle after quiescent collections and by the correspondence of freed sets / allocated_bytes.",
-            "Lean proof (T2 completeness, termination) + correspondence + leak oracle"),
-    "C03": ("Proved for every reachable world: a box is released only while it exists, exactly one free event per release, a freed identity stays freed (every allocation released at most once in any history), nothing that exists points to a released box; allocated bytes go down by exactly the box size. Proved for every history in which no panic has been unwound (HistR: all operations, callbacks, nested/automatic collections, resurrection, cleaners, new_cyclic): drop_in_place runs only on an intact value in an allocated box (drop_only_alive), EVERY VALUE IS DROPPED AT MOST ONCE in the whole history (dropped_at_most_once), nothing is done to an object after its destruction (no second drop, no finalize), a destroyed value stays destroyed and its identity is never reused, and every allocated box whose value is gone is owned by a frame (the Cc::drop destroying it, the new_cyclic building it, the deallocate_list loop) - invariant Life by induction over every running micro-step. Step theorems on every release site (value marked dead before its fields are released, free after drop, new_cyclic guard emits no drop). After a caught panic 'dropped at most once' is not proved (needs the isolation invariant, DESIGN.md §10): decided per run by the allocator oracle (double free, layout mismatch, callback on dead value) and the correspondence of ordered drop/free events.",
+    "C02": ("Graph theorem T2 (per-pass completeness + both queues drain with fuel = #objects) proved for all heaps. Proved for every collection pass of every panic-free history (reachable_pass_complete): the hypotheses of T2 are discharged from the machine invariants, and because strong counts are exact there, every member of the traced closure of the buffer that is not reachable from a member to which a pointer from outside the closure exists (table entry, stashed clone, temporary, untraced field, field of an object outside) is selected by the pass - garbage owned only through traced fields is always selected, whatever history preceded. Not yet proved: history-level coverage I10 (every garbage component has a buffered member); checked per run by the model-independent leak oracle after quiescent collections and by the correspondence of freed sets / allocated_bytes.",
+            "Lean proof (T2 completeness + termination; per-pass completeness in every panic-free reachable world) + correspondence + leak oracle"),
+    "C03": ("Proved for every reachable world: a box is released only while it exists, exactly one free event per release, a freed identity stays freed (every allocation released at most once in any history), nothing that exists points to a released box; allocated bytes go down by exactly the box size. Proved for every history in which no panic has been unwound (HistR: all operations, callbacks, nested/automatic collections, resurrection, cleaners, new_cyclic): drop_in_place runs only on an intact value in an allocated box (drop_only_alive), EVERY VALUE IS DROPPED AT MOST ONCE in the whole history (dropped_at_most_once), nothing is done to an object after its destruction (no second drop, no finalize), a destroyed value stays destroyed and its identity is never reused, and every allocated box whose value is gone is owned by a frame (the Cc::drop destroying it, the new_cyclic building it, the deallocate_list loop) - invariant Life by induction over every running micro-step. A box is released only after its value is gone - dropped, moved out by try_unwrap, or never built (released_box_has_no_live_value, free_only_after_value_gone; invariants Owned/FreedDead). Step theorems on every release site (value marked dead before its fields are released, free after drop, new_cyclic guard emits no drop). After a caught panic 'dropped at most once' is not proved (needs the isolation invariant, DESIGN.md §10): decided per run by the allocator oracle (double free, layout mismatch, callback on dead value) and the correspondence of ordered drop/free events.",
             "Lean proof (free-at-most-once over all histories; drop-at-most-once and life-cycle invariant over panic-free histories) + correspondence + allocator oracle + layout grid"),
     "C04": ("Proved for every reachable world of the machine (any programs, callbacks, collections, injected panics, unwinding): the count of every box is >= the number of Cc pointers to it that exist (count_never_too_low); a box with count 0 / a freed box has no pointer to it; no pointer targets a freed box. Proved for every world of every panic-free history (no unwinding step executed so far; callbacks, nested/automatic collections, resurrection, cleaners, new_cyclic all included): strong_count is EXACT, count = number of existing pointers (strong_count_exact; same induction over all operations and frame steps with both inequalities, plus two auxiliary invariants: table indices of allocation frames in range, slot-map free lists name empty slots), also stated for what the driver computes for a panic-free program (strong_count_exact_prog); a concrete reachable world after a caught panic with count > pointers shows the restriction is necessary (the property allows exactly that). Step-level theorems for clone/drop (exactly +1/-1, last owner destroys in the same step whether buffered or not, listed objects only decremented). 'Everything it solely owned is reclaimed before drop returns' is checked per run (ordered events) and by the count oracle.",
             "Lean proof (count invariant, exact in panic-free histories, by induction over all micro-steps) + correspondence + count oracle"),
